@@ -1,4 +1,5 @@
 import JoblibModel.ParallelProto
+import JoblibModel.ParallelSeq
 import JoblibModel.IOUtil
 import JoblibModel.AutoBatch
 /-! Line protocol for M1 (shared by the C01/C04/C09/C16 drivers): a scenario of harness/ctl.py as a flat list of
@@ -38,7 +39,7 @@ def parseSched : Nat → List Int → Option (List (List Nat) × List Int)
 def parseScenario (toks : List Int) : Option (Cfg × List CallSpec × List (List Nat)) :=
   match toks with
   | nj :: auto :: nbs :: l => do
-    if nj < 2 || nbs < 1 then none
+    if nj < 1 || nbs < 1 then none
     let (bs, l) ← takeNats nbs.toNat l
     match l with
     | pdMode :: pd :: ra :: to :: mg :: ad :: nc :: l =>
@@ -79,6 +80,9 @@ def handle (line : String) : String :=
   | some toks =>
     match parseScenario toks with
     | none => "bad-op"
-    | some (c, calls, sched) => " | ".intercalate (runScenario c calls sched)
+    | some (c, calls, sched) =>
+      -- `n_jobs == 1` after configuration: the sequential path
+      if c.nj == 1 then " | ".intercalate (ParallelSeq.runScenarioSeq c calls sched)
+      else " | ".intercalate (runScenario c calls sched)
 
 end JoblibModel.ParallelDriver
